@@ -137,7 +137,46 @@ fn classify(segs: &[&str]) -> String {
     }
 }
 
+/// the same segment list handed over through iterators of different shapes (exact size hint, no upper bound,
+/// an upper bound larger than what is yielded): the result must not depend on the shape
+fn check_shapes(segs: &[&'static str]) -> Option<Violation> {
+    let want = {
+        let v: Vec<&'static str> = segs.to_vec();
+        catch(move || Path::from_segments(v))
+    };
+    let a = {
+        let v: Vec<&'static str> = segs.to_vec();
+        catch(move || {
+            let mut it = v.into_iter();
+            Path::from_segments(std::iter::from_fn(move || it.next()))
+        })
+    };
+    let b = {
+        let v: Vec<&'static str> = segs.to_vec();
+        catch(move || Path::from_segments(v.into_iter().chain(vec!["dropped"].into_iter().filter(|_| false))))
+    };
+    let c = {
+        let v: Vec<&'static str> = segs.to_vec();
+        catch(move || Path::from_segments(vec!["dropped"].into_iter().filter(|_| false).chain(v.into_iter().filter(|_| true))))
+    };
+    for (shape, got) in [("from_fn", &a), ("chain-with-filtered-tail", &b), ("filtered-head-and-filter", &c)] {
+        if format!("{got:?}") != format!("{want:?}") {
+            return Some(Violation {
+                key: "from_segments:iterator-shape".into(),
+                msg: format!("from_segments({segs:?}) depends on the shape of the iterator: Vec gives {want:?}, {shape} gives {got:?}"),
+                case: json!({"kind": "segments", "segments": segs}),
+            });
+        }
+    }
+    None
+}
+
 fn check_segments(segs: &[&'static str]) -> Option<Violation> {
+    if segs.len() != 1 {
+        if let Some(v) = check_shapes(segs) {
+            return Some(v);
+        }
+    }
     let v: Vec<&'static str> = segs.to_vec();
     let got = match catch(move || Path::from_segments(v)) {
         Ok(g) => g,
